@@ -29,9 +29,11 @@ CfgOf(e) == [kind |-> e.kind, cap |-> e.cap, tick |-> e.tick, rnum |-> e.rnum,
 NoCfg == [kind |-> "none", cap |-> 0, tick |-> 1, rnum |-> 1, rsh |-> 0, ttl0 |-> 0]
 
 (* The projection taken after the call with side-effect-free lookups.      *)
-Idx(e, x)  == {i \in 1..Len(e.obs) : e.obs[i][1] = x}
-ObsV(e)    == [x \in Keys |-> IF Idx(e, x) = {} THEN None ELSE e.obs[CHOOSE i \in Idx(e, x) : TRUE][2]]
-ObsC(e)    == [x \in Keys |-> IF Idx(e, x) = {} THEN 0 ELSE e.obs[CHOOSE i \in Idx(e, x) : TRUE][3]]
+\* obs is a list of <<key, value, count>> with distinct keys
+ObsKeys(e) == {e.obs[i][1] : i \in 1..Len(e.obs)}
+ObsAt(e, x) == e.obs[CHOOSE i \in 1..Len(e.obs) : e.obs[i][1] = x]
+ObsV(e)    == LET ks == ObsKeys(e) IN [x \in Keys |-> IF x \in ks THEN ObsAt(e, x)[2] ELSE None]
+ObsC(e)    == LET ks == ObsKeys(e) IN [x \in Keys |-> IF x \in ks THEN ObsAt(e, x)[3] ELSE 0]
 Skip(e)    == {e.skip[i] : i \in 1..Len(e.skip)}
 Probed(e)  == Keys \ Skip(e)
 
@@ -40,7 +42,7 @@ KvOf(c, e) == [i \in 1..Len(e.kv) |-> <<e.kv[i][1], Val(c, e.kv[i][2]), e.kv[i][
 KsOf(e)    == [i \in 1..Len(e.kv) |-> e.kv[i][1]]
 RlOf(e)    == [i \in 1..Len(e.rl) |-> <<e.rl[i][1], e.rl[i][2]>>]
 
-Gone(e, s) == {x \in Live(s) \cap Probed(e) : ObsV(e)[x] = None}
+Gone(e, s) == LET ov == ObsV(e) IN {x \in Live(s) \cap Probed(e) : ov[x] = None}
 
 \* Logs of free-running threads cannot read size() after every call (size = -1): the size the
 \* specification expects is carried instead (those runs have no expiry and no eviction).
@@ -64,10 +66,11 @@ Resync(c, e, s2) ==
 ProjSize(c, s, e) == e.size >= 0 => e.size = s.size
 
 (* Checks every call shares: the projection equals the expected state.     *)
-ValuesEq(e, s2) == \A x \in Probed(e) : ObsV(e)[x] = s2.store[x]
-LiveEq(e, s2)   == \A x \in Probed(e) : (ObsV(e)[x] # None) = (s2.store[x] # None)
+\* (the projection functions are built once per predicate, not once per key)
+ValuesEq(e, s2) == LET ov == ObsV(e) IN \A x \in Probed(e) : ov[x] = s2.store[x]
+LiveEq(e, s2)   == LET ov == ObsV(e) IN \A x \in Probed(e) : (ov[x] # None) = (s2.store[x] # None)
 CntEq(c, e, s2) == c.kind \in CntKinds =>
-                      \A x \in Probed(e) : (s2.store[x] # None => ObsC(e)[x] = s2.cnt[x])
+                      LET oc == ObsC(e) IN \A x \in Probed(e) : (s2.store[x] # None => oc[x] = s2.cnt[x])
 Observers(c, e) ==
   JJ({"C02"}, e.size >= 0 => (/\ (e.empty = 1) = (e.size = 0)
                               /\ c.kind \in CacheKinds => e.cap = c.cap
